@@ -105,11 +105,19 @@ def execStep (st : ExecDrvSt) (op : String) (a : KV) : ExecDrvSt × String :=
     let o := safeCmdExecution .err .notExist (.exits 0 "7\n") 2000
     (exCount st o.ran,
      s!"check={if chk.passed then "ok" else "err"} run={exFmtRun o.res} marker={exB01 o.ran}")
+  | "ex.statrace" =>
+    -- whatever `EvalSymlinks` / `Stat` answer at each call (`C19_holds` quantifies over all of them): no panic
+    let outs := [safeCmdExecution .err .notExist (.exits 0 "7\n") 2000,
+                 safeCmdExecution .resolved .otherErr (.exits 0 "7\n") 2000,
+                 safeCmdExecution .resolved .notExist (.exits 0 "7\n") 2000,
+                 safeCmdExecution .resolved (.ok { uid := 0, gid := 0, mode := 0o755 }) (.exits 0 "7\n") 2000]
+    (st, s!"panics={if outs.any (fun o => o.res.isPanic) then 1 else 0}")
   | "ex.cfg" =>
     let s := exStatOf a ""
     let kind := a.str "cmd" "none"
-    let c : CfgView := { hasCmdSensor := kind == "sensor" || kind == "both",
-                         hasCmdFan := kind == "fan" || kind == "both" }
+    -- a command sensor counts whether or not a curve references it (backend.go creates and polls every sensor)
+    let c : CfgView := { hasCmdSensor := kind == "sensor" || kind == "both" || kind == "sensor-unused" || kind == "sensor-second",
+                         hasCmdFan := kind == "fan" || kind == "both" || kind == "fan-second" }
     let r := validateConfigPerm none none c .resolved (.ok s)
     (st, s!"validate={if r.passed then "ok" else "err"}")
   | "ex.run" =>
